@@ -48,3 +48,11 @@ def residue_pair_joined_by_nonbond_only(f):
 
 def conditional_include_after_inline_moleculetype(f):
     return bool(f.get("cond_include"))
+
+
+def ff_link_with_nonbonded_span_and_itp_file_read_later(f):
+    return f.get("dimension") == "fileorder"
+
+
+def bonded_residues_share_a_residue_number(f):
+    return bool(f.get("resid_restart"))
